@@ -17,7 +17,7 @@
 (*   wseq  : number of values published on the watch channel               *)
 (*   cb    : number of catch-up callback invocations                       *)
 (***************************************************************************)
-EXTENDS NodeStateOps, Json
+EXTENDS NodeStateOps, FdOps, Json
 
 CONSTANTS
   Node,          \* node names
@@ -32,8 +32,7 @@ CONSTANTS
   MaxClock,      \* bound on clock                    (state constraint)
   MaxHb,         \* bound on heartbeats               (state constraint, TrackHb only)
   TrackHb,       \* FALSE: heartbeats are abstracted away (frozen detector configs)
-  PhiN, PhiD,    \* phi threshold as a rational
-  Window, MaxInterval, Prior, DeadGrace,   \* failure detector configuration (ticks); DeadGrace even
+  DeadGrace,     \* dead_node_grace_period (ticks, even); the other detector constants are FdOps'
   PredKey, PredVal,  \* extra liveness predicate kv[PredKey] = PredVal visible; PredKey = "" -> none
   Enable         \* set of enabled action families: "api","ttl","gc","hb","live","catchup","lose","dup"
 
@@ -113,32 +112,7 @@ Advance(d) ==
   /\ Step([a |-> "Advance", d |-> d])
 
 -------------------------------------------------------------------------------
-\* Failure detector (failure_detector.rs), integer ticks
-SeqSum(s) == IF s = <<>> THEN 0 ELSE
-  LET RECURSIVE Sum(_) Sum(i) == IF i = 0 THEN 0 ELSE s[i] + Sum(i - 1) IN Sum(Len(s))
-
-\* SamplingWindow::report_heartbeat
-FdReport(fd, x, now) ==
-  IF x \notin DOMAIN fd THEN Put(fd, x, [win |-> <<>>, last |-> now])
-  ELSE LET w == fd[x]
-           iv == now - w.last
-           win2 == IF w.last >= 0 /\ iv <= MaxInterval
-                   THEN (IF Len(w.win) >= Window THEN Append(Tail(w.win), iv) ELSE Append(w.win, iv))
-                   ELSE w.win
-       IN Put(fd, x, [win |-> win2, last |-> now])
-
-\* phi <= threshold, by cross multiplication; "None" (no interval yet) counts as not alive.
-\* Returns the set of admissible outcomes: exact equality with an inexact mean may round either way.
-AliveOutcomes(fd, x, now) ==
-  IF x \notin DOMAIN fd \/ fd[x].win = <<>> THEN {FALSE}
-  ELSE LET w == fd[x]
-           len == Len(w.win)
-           sum == SeqSum(w.win)
-           lhs == (now - w.last) * (len + 5) * PhiD
-           rhs == PhiN * (sum + 5 * Prior)
-       IN IF lhs < rhs THEN {TRUE}
-          ELSE IF lhs > rhs THEN {FALSE}
-          ELSE IF (sum + 5 * Prior) % (len + 5) = 0 THEN {TRUE} ELSE {TRUE, FALSE}
+\* Failure detector operators (FdReport, AliveOutcomes): module FdOps
 
 -------------------------------------------------------------------------------
 \* report_heartbeat (lib.rs:183-205) for one digest entry
@@ -250,8 +224,9 @@ CreateSyn(n, p) ==
   /\ Step([a |-> "CreateSyn", n |-> n, to |-> p, out |-> SynMsg(n, p)])
 
 \* process_message (lib.rs:121-174).  keep = the datagram stays in flight (duplication).
-Process(n, m, keep) ==
-  /\ m \in net /\ m.dst = n
+\* ProcessMsg does not require the datagram to be in `net` (crafted datagrams: detector histories,
+\* hostile peers); Process is the honest-network case.
+ProcessMsg(n, m, keep) ==
   /\ LET s0 == BumpHb(st[n], n)
          rest == IF keep THEN net ELSE net \ {m}
      IN
@@ -295,6 +270,8 @@ Process(n, m, keep) ==
             /\ UNCHANGED <<mid, panic>>
             /\ Step([a |-> "Process", n |-> n, msg |-> m])
   /\ UNCHANGED <<clock, ledger>>
+
+Process(n, m, keep) == m \in net /\ m.dst = n /\ ProcessMsg(n, m, keep)
 
 Lose(m) ==
   /\ m \in net
